@@ -56,16 +56,20 @@ func (P *Prog) preamble(reveal func(string) bool) string {
 	return b.String()
 }
 
-func (o *Obligation) script(P *Prog, models bool) string { return o.scriptV(P, models, false) }
+func (o *Obligation) script(P *Prog, models bool) string { return o.scriptV(P, models, 0) }
 
-// scriptV: with hide set, definitions of opaque spec functions that the goal does not
-// mention are withheld (a weaker, hence still sound, set of hypotheses).
-func (o *Obligation) scriptV(P *Prog, models bool, hide bool) string {
+// scriptV: hide = 0 reveals every opaque definition; 1 reveals only those the goal mentions
+// (transitively); 2 reveals none. Withholding definitions weakens the hypotheses, so an
+// unsat answer of any variant is a proof.
+func (o *Obligation) scriptV(P *Prog, models bool, hide int) string {
 	var b strings.Builder
 	b.WriteString("(set-option :produce-models true)\n(set-logic ALL)\n")
 	var reveal func(string) bool
-	if hide {
+	switch hide {
+	case 1:
 		reveal = func(name string) bool { return P.mentionsTransitively(o.Neg, name) }
+	case 2:
+		reveal = func(name string) bool { return false }
 	}
 	b.WriteString(P.preamble(reveal))
 	for _, d := range o.Decls {
@@ -130,19 +134,23 @@ func runSolver(ctx context.Context, sd solverDef, script string, timeoutMs int) 
 
 // solve races the solvers on one obligation.
 func solve(P *Prog, o *Obligation, timeoutMs int, all bool) *Result {
+	full := o.script(P, true)
 	if !o.Cover && len(P.usedRec) > 0 && !all {
-		// phase 1: definitions of opaque functions not mentioned by the goal are hidden
-		hidden := o.scriptV(P, true, true)
-		full := o.script(P, true)
-		if hidden != full {
-			r := solveScript(hidden, timeoutMs/3, false)
+		tried := map[string]bool{full: true}
+		for _, hide := range []int{2, 1} {
+			sc := o.scriptV(P, true, hide)
+			if tried[sc] {
+				continue
+			}
+			tried[sc] = true
+			r := solveScript(sc, timeoutMs/4, false)
 			if r.Verdict == "unsat" {
-				r.Solver += "(hidden-defs)"
+				r.Solver += fmt.Sprintf("(hidden-defs:%d)", hide)
 				return r
 			}
 		}
 	}
-	return solveScript(o.script(P, true), timeoutMs, all)
+	return solveScript(full, timeoutMs, all)
 }
 
 func solveScript(script string, timeoutMs int, all bool) *Result {
